@@ -379,6 +379,10 @@ MODEL_PARAMS = {
     "WVST": {"n_m": 9.87654321, "K": 3.21098765, "L1v": 1.23456789, "Lv1": 0.87654321},
 }
 MODELS = list(MODEL_PARAMS)
+# the parameter set to exactly zero in the magnitude class "zero" (a value the model's default bounds include)
+ZERO_PARAM = {"Henry": "K", "Langmuir": "K", "DSLangmuir": "K2", "TSLangmuir": "K3", "BET": "C", "GAB": "C", "Freundlich": "K",
+              "DA": "n_m", "DR": "n_m", "Quadratic": "Kb", "TemkinApprox": "tht", "Virial": "C", "Toth": "K", "JensenSeaton": "c",
+              "FHVST": "a1v", "WVST": "Lv1"}
 
 # magnitude classes of the numbers a model carries: factor applied to every parameter (cycled), to the ranges and
 # to the fit error.  All factors have more significant digits than any fixed-decimal rounding keeps.
@@ -388,6 +392,7 @@ MAGNITUDES = {
              "prange": (1.2345678901234e-09, 9.8765432109876e-07), "lrange": (2.3456789012345e-08, 4.5678901234567e-06), "rmse": 1.2345678901234e-11},
     "huge": {"params": [1.2345678901234e+06, 9.8765432109876e+11, 3.1415926535898e+09, 2.7182818284590e+07],
              "prange": (1.0132512345678e+05, 9.8765432109876e+11), "lrange": (1.2345678901234e+06, 4.5678901234567e+09), "rmse": 1.2345678901234e+03},
+    "zero": {"params": [1.0], "prange": (0.0, 0.912345678901), "lrange": (0.0, 4.5678901234), "rmse": 0.0},
     "many_digits": {"params": [1.0 / 3.0, 2.0 / 7.0, 0.1 + 0.2, 1.0 / 9.0],
                     "prange": (1.0 / 300.0, 2.0 / 3.0), "lrange": (1.0 / 7.0, 22.0 / 7.0), "rmse": 1.0 / 3000.0},
 }
@@ -489,11 +494,55 @@ def layout_data(layout, rep, rng):
         d = list(reversed(up(2, 0.2, 0.7)))
         return {"pressure": a + d, "loading": load(a) + [x + 0.1 for x in load(d)], "branch": "guess",
                 "extra": {"remark": [["", "ok", "", "check", ""], ["a", "", "b", "", "c"]][rep % 2]}}
+    if layout in ("extra_text_numlike", "extra_text_wordlike"):
+        a = up(4, 0.1, 0.9)
+        d = list(reversed(up(2, 0.2, 0.7)))
+        cells = {"extra_text_numlike": [["007", "1e3", "12", "3.50", "-4", "0"], ["12", "13", "14", "15", "16", "17"]],
+                 "extra_text_wordlike": [["True", "None", "nan", "false", "NA", "inf"], ["True", "False", "True", "True", "False", "False"]]}[layout][rep % 2]
+        return {"pressure": a + d, "loading": load(a) + [x + 0.1 for x in load(d)], "branch": "guess", "extra": {"remark": cells}}
     if layout == "many_points":
         a = up(24)
         d = list(reversed(up(12, 0.1, 0.9)))
         return {"pressure": a + d, "loading": load(a) + [x + 0.3 for x in load(d)], "branch": "guess", "extra": {}}
     raise MachineryError(f"unknown layout {layout}")
+
+
+def relabel(df, rowlab, rng):
+    """The same table (same rows, same order) under another row labelling, obtained the way users get there."""
+    import pandas
+    n = len(df)
+    if rowlab in ("default", "na"):
+        return df
+    if rowlab == "shifted":
+        out = df.copy()
+        out.index = range(5, 5 + n)
+        return out
+    if rowlab == "strings":
+        out = df.copy()
+        out.index = [f"pt{i:02d}" for i in range(n)]
+        return out
+    if rowlab == "permuted":
+        # recorded in another order, brought into measurement order with sort_values: labels are a permutation
+        order = list(range(n))
+        rng.shuffle(order)
+        if n > 1 and order == sorted(order):
+            order = order[1:] + order[:1]
+        tmp = df.copy()
+        tmp["_seq"] = range(n)
+        tmp = tmp.iloc[order].reset_index(drop=True).sort_values("_seq").drop(columns="_seq")
+        return tmp
+    if rowlab == "gaps":
+        # a larger table from which calibration rows are filtered out with a boolean mask: labels start above 0 and have gaps
+        rows, keep = [], []
+        for i in range(n):
+            if i == 0 or i % 2 == 1:
+                rows.append(df.iloc[i])
+                keep.append(False)
+            rows.append(df.iloc[i])
+            keep.append(True)
+        big = pandas.DataFrame(rows).reset_index(drop=True).astype(df.dtypes.to_dict())
+        return big[pandas.Series(keep)]
+    raise MachineryError(f"unknown row labelling {rowlab}")
 
 
 class Builder:
@@ -549,10 +598,13 @@ class Builder:
             return BaseIsotherm(**kw)
         if cls == "point":
             lay = layout_data(row["layout"], row["rep"], rng)
-            if lay["extra"] or lay["branch"] == "column":
+            rowlab = row.get("rowlab", "default")
+            if lay["extra"] or lay["branch"] == "column" or rowlab not in ("default", "na"):
                 df = pandas.DataFrame({"pressure": lay["pressure"], "loading": lay["loading"], **lay["extra"]})
                 if lay["branch"] == "column":
                     df["branch"] = lay["branch_col"]
+                df = relabel(df, rowlab, self.rng(row, "rowlab"))
+                if lay["branch"] == "column":
                     return pygaps.PointIsotherm(isotherm_data=df, pressure_key="pressure", loading_key="loading", **kw)
                 return pygaps.PointIsotherm(isotherm_data=df, pressure_key="pressure", loading_key="loading", branch=lay["branch"], **kw)
             return pygaps.PointIsotherm(pressure=lay["pressure"], loading=lay["loading"], branch=lay["branch"], **kw)
@@ -577,7 +629,11 @@ class Builder:
             f = (lambda x: numpy.float64(x)) if how == "as_fitted" else float
             mag = MAGNITUDES[row.get("mag", "order_one") if row.get("mag", "na") != "na" else "order_one"]
             fac = mag["params"]
-            m = get_isotherm_model(name, parameters={k: f(v * fac[i % len(fac)]) for i, (k, v) in enumerate(MODEL_PARAMS[name].items())},
+            pars = {k: f(v * fac[i % len(fac)]) for i, (k, v) in enumerate(MODEL_PARAMS[name].items())}
+            if row.get("mag") == "zero":
+                # exactly zero: a float 0.0, or the integer literal 0 a user may well type
+                pars[ZERO_PARAM[name]] = f(0.0) if (how == "as_fitted" or row["rep"] % 2 == 0) else 0
+            m = get_isotherm_model(name, parameters=pars,
                                    pressure_range=tuple(f(x) for x in mag["prange"]),
                                    loading_range=tuple(f(x) for x in mag["lrange"]), rmse=f(mag["rmse"]))
             if how == "as_fitted":
